@@ -199,6 +199,8 @@ def gen_level(rng, path, depth, with_pv=False):
             a["flags"].add("required")
         if k == npos - 1 and chance(rng, 0.5):
             a["num"] = pick(rng, [(1, 3), (2, 2), (1, None), (2, 3)])
+        elif k == npos - 1 and chance(rng, 0.3):
+            a["action"] = "append"      # one value per occurrence, any number of adjacent occurrences
         if chance(rng, 0.25):
             a["vp"] = I64
         c["args"].append(a)
@@ -255,7 +257,11 @@ def num_of(a):
 
 def is_multi_pos(a):
     lo, hi = num_of(a)
-    return (not is_opt(a)) and (hi is None or hi > 1)
+    return (not is_opt(a)) and (hi is None or hi > 1 or a.get("action") == "append")
+
+
+def is_append_single_pos(a):
+    return (not is_opt(a)) and a.get("action") == "append" and num_of(a) == (1, 1)
 
 
 def rules_ok(c, present):
@@ -389,6 +395,8 @@ def gen_invocation(rng, c, force_closed=False):
                 continue
             lo, hi = num_of(a)
             k = 1 if not is_multi_pos(a) else pick(rng, [lo, lo, hi if hi is not None else lo + 2, min(lo + 1, hi or lo + 1)])
+            if is_append_single_pos(a):
+                k = pick(rng, [1, 2, 3])
             seq.append({"kind": "pos", "arg": a, "toks": [good_value(rng, a) for _ in range(k)],
                         "open": is_multi_pos(a), "k": k, "attached": False})
         for it in items:
@@ -647,7 +655,7 @@ def mutate_fault(rng, levels, want=None):
         return done(seq[:i] + [new] + seq[i + 1:], COUNT_KINDS_FEW if f == "too_few" else COUNT_KINDS_NONE)
     if f == "too_many_pos":
         cands = [it for it in seq if it["kind"] == "pos" and it.get("arg") and is_multi_pos(it["arg"])
-                 and num_of(it["arg"])[1] is not None]
+                 and num_of(it["arg"])[1] is not None and not is_append_single_pos(it["arg"])]
         if not cands:
             return None
         it = pick(rng, cands)
